@@ -3,7 +3,7 @@
     // independent evaluator of the description: a solution is returned exactly when a satisfying assignment exists, it satisfies every constraint,
     // its reported objective is the objective at the returned values, and no satisfying assignment is strictly better; otherwise the infeasible verdict.
     #[derive(Clone, Debug)]
-    enum T { N(f64), V(usize), Add(Box<T>, Box<T>), Sub(Box<T>, Box<T>), Mul(Box<T>, Box<T>), Neg(Box<T>), Abs(Box<T>), Min(Vec<T>), Max(Vec<T>),
+    enum T { N(f64), V(usize), Add(Box<T>, Box<T>), Sub(Box<T>, Box<T>), Mul(Box<T>, Box<T>), Div(Box<T>, Box<T>), Neg(Box<T>), Abs(Box<T>), Min(Vec<T>), Max(Vec<T>),
              And(Vec<T>), Or(Vec<T>), Not(Box<T>), Imp(Box<T>, Box<T>), Iff(Box<T>, Box<T>), Xor(Box<T>, Box<T>) }
     #[derive(Clone, Debug)]
     enum C { Cmp(T, Comparison, T), Logic(T) }
@@ -15,7 +15,7 @@
         let tr = |v: f64| v != 0.0; let b = |c: bool| if c { 1.0 } else { 0.0 };
         match t {
             T::N(n) => *n, T::V(i) => x[*i],
-            T::Add(a, c) => val(a, x) + val(c, x), T::Sub(a, c) => val(a, x) - val(c, x), T::Mul(a, c) => val(a, x) * val(c, x),
+            T::Add(a, c) => val(a, x) + val(c, x), T::Sub(a, c) => val(a, x) - val(c, x), T::Mul(a, c) => val(a, x) * val(c, x), T::Div(a, c) => val(a, x) / val(c, x),
             T::Neg(a) => -val(a, x), T::Abs(a) => val(a, x).abs(),
             T::Min(v) => v.iter().map(|e| val(e, x)).fold(f64::INFINITY, f64::min), T::Max(v) => v.iter().map(|e| val(e, x)).fold(f64::NEG_INFINITY, f64::max),
             T::And(v) => b(v.iter().all(|e| tr(val(e, x)))), T::Or(v) => b(v.iter().any(|e| tr(val(e, x)))), T::Not(a) => b(!tr(val(a, x))),
@@ -36,7 +36,7 @@
         match t {
             T::N(n) => num(*n), T::V(i) => names[*i].clone(),
             T::Add(a, c) => format!("({} + {})", txt(a, names), txt(c, names)), T::Sub(a, c) => format!("({} - {})", txt(a, names), txt(c, names)),
-            T::Mul(a, c) => format!("({} * {})", txt(a, names), txt(c, names)), T::Neg(a) => format!("(-{})", txt(a, names)),
+            T::Mul(a, c) => format!("({} * {})", txt(a, names), txt(c, names)), T::Div(a, c) => format!("({} / {})", txt(a, names), txt(c, names)), T::Neg(a) => format!("(-{})", txt(a, names)),
             T::Abs(a) => format!("abs{{ {} }}", txt(a, names)), T::Min(v) => format!("min{{ {} }}", l(v)), T::Max(v) => format!("max{{ {} }}", l(v)),
             T::And(v) => format!("({})", v.iter().map(|e| txt(e, names)).collect::<Vec<_>>().join(" and ")),
             T::Or(v) => format!("({})", v.iter().map(|e| txt(e, names)).collect::<Vec<_>>().join(" or ")),
@@ -64,10 +64,11 @@
     impl Rng { fn next(&mut self, n: usize) -> usize { self.0 = self.0.wrapping_mul(6364136223846793005).wrapping_add(1442695040888963407); ((self.0 >> 33) as usize) % n } }
     fn term(r: &mut Rng, nv: usize, depth: u32) -> T {
         let v = |r: &mut Rng| T::V(r.next(nv)); let n = |r: &mut Rng| T::N([1.0, 2.0, 3.0, 0.5][r.next(4)]);
-        match if depth == 0 { r.next(3) } else { r.next(9) } {
+        match if depth == 0 { r.next(3) } else { r.next(10) } {
             0 | 1 => v(r), 2 => T::Mul(bx(n(r)), bx(v(r))),
             3 => T::Add(bx(term(r, nv, depth - 1)), bx(term(r, nv, depth - 1))), 4 => T::Sub(bx(term(r, nv, depth - 1)), bx(term(r, nv, depth - 1))),
             5 => T::Abs(bx(T::Sub(bx(term(r, nv, depth - 1)), bx(n(r))))), 6 => T::Min(vec![term(r, nv, depth - 1), term(r, nv, depth - 1)]), 7 => T::Max(vec![term(r, nv, depth - 1), n(r)]),
+            8 => T::Div(bx(term(r, nv, depth - 1)), bx(T::N([2.0, 4.0, 0.5][r.next(3)]))),
             _ => T::Neg(bx(term(r, nv, depth - 1))),
         }
     }
